@@ -338,7 +338,7 @@ func c01netGen(c *h.Ctx, yield func(*h.Case)) {
 	yield(&h.Case{Class: "net-corpus", Ops: []string{"c01 nstart 3 0", "c01 nopen 1 2 10 20", "c01 nsend 1 2 11", "c01 nsend 2 1 21",
 		"c01 nsend 1 1 12", "c01 nrace 0 1 30 31", "c01 nsend 0 1 32", "c01 nsend 1 0 33", "c01 nrace 0 1 34 35"}})
 	yield(&h.Case{Class: "net-corpus", Ops: []string{"c01 nstart 2 1", "c01 nrace 0 1 1 2", "c01 nopen 0 1 3 4", "c01 nsend 1 0 5", "c01 nsend 0 0 6"}})
-	for k := 0; k < c.Pick(24, 400); k++ {
+	for k := 0; k < c01pick(c, 24, 400, 60); k++ {
 		n := 2 + r.Intn(4)
 		tcp := 0
 		if k%3 == 2 {
